@@ -23,6 +23,13 @@ func evalC03(c *Ctx, m *SX) error {
 		r.Hist["kind:"+k]++
 	}
 	r.Sample(cs)
+	if dom, err := c.M.Ask("(in_domain " + cs + ")"); err != nil {
+		return err
+	} else if dom == "1" {
+		r.Hist["in-theorem-domain(dom_msgb)"]++
+	} else {
+		r.Hist["outside-theorem-domain"]++
+	}
 	if encI != encM {
 		r.Add(Finding{Kind: "correspondence", What: "IKEMessage.Encode differs from Impl.encode", Case: "(encode " + cs + ")", Expected: encM, Observed: encI})
 	}
